@@ -1,5 +1,5 @@
 def get(pid):
-    from . import checks_net
+    from . import checks_net, checks_p
 
     table = {
         "C02": checks_net.C02,
@@ -7,5 +7,6 @@ def get(pid):
         "C04net": checks_net.C04net,
         "C04": checks_net.C04net,
         "C12": checks_net.C12,
+        "C13": checks_p.C13,
     }
     return table[pid]()
